@@ -186,10 +186,51 @@ func ptrTo(v interface{}) interface{} {
 	return p.Interface()
 }
 
+type encItem struct {
+	name string
+	e    encode.Encoder
+	v    interface{}
+	ref  []byte
+	want interface{}
+}
+
+// batchLaw: encode ALL values first, keep the results, then check every kept
+// encoding. A later Encode call must not change an earlier result (encodings are
+// appended to streams, arrays and leaf buffers by their callers).
+func batchLaw(items []encItem) error {
+	if len(items) < 2 {
+		return nil
+	}
+	var verr error
+	err := guard("a batch of Encode calls", func() error {
+		encs := make([][]byte, len(items))
+		for i, it := range items {
+			encs[i] = it.e.Encode(it.v)
+		}
+		for i, it := range items {
+			if !bytes.Equal(encs[i], it.ref) {
+				verr = viol("encoding-overwritten", "%s: the encoding of value #%d (%v) read %x after %d later Encode calls, reference layout is %x", it.name, i, it.v, encs[i], len(items)-1-i, it.ref)
+				return nil
+			}
+			n, d := it.e.Decode(encs[i])
+			if n != len(it.ref) || !valEq(d, it.want) {
+				verr = viol("encoding-overwritten", "%s: Decode of the kept encoding of value #%d gives (%d,%v), want (%d,%v)", it.name, i, n, d, len(it.ref), it.want)
+				return nil
+			}
+		}
+		return nil
+	})
+	if err != nil {
+		return err
+	}
+	return verr
+}
+
 // checkC15: c.Kind names the codec; c.Ints are raw integer values, c.Vals string/byte payloads.
 func checkC15(c *Case, s *Stats) error {
 	junk := []byte(c.Junk)
 	nt := false
+	var items []encItem
 	switch {
 	case intCodecs[c.Kind].enc != nil:
 		w := intCodecs[c.Kind].width
@@ -201,6 +242,8 @@ func checkC15(c *Case, s *Stats) error {
 			if err := intLaw(c.Kind, raw, junk); err != nil {
 				return err
 			}
+			ic := intCodecs[c.Kind]
+			items = append(items, encItem{c.Kind, ic.enc, ic.conv(raw), leBytes(raw, ic.width), ic.conv(raw)})
 			if raw>>(8*uint(w)-1)&1 == 1 {
 				nt = true
 			}
@@ -213,6 +256,7 @@ func checkC15(c *Case, s *Stats) error {
 			if err := encLaw("String16", encode.String16{}, str, ref, junk, str); err != nil {
 				return err
 			}
+			items = append(items, encItem{"String16", encode.String16{}, str, ref, str})
 			if len(str) >= 256 {
 				nt = true
 			}
@@ -258,6 +302,7 @@ func checkC15(c *Case, s *Stats) error {
 			if err := encLaw(fmt.Sprintf("TypeEncoder(%T,big=%v,ctor=%d)", arg, big, ctor%4), e, arg, ref, junk, v); err != nil {
 				return err
 			}
+			items = append(items, encItem{fmt.Sprintf("TypeEncoder(%T,big=%v)", arg, big), e, arg, ref, v})
 			if !reflect.DeepEqual(e.GetSize(v), len(ref)) {
 				return viol("size", "TypeEncoder size mismatch")
 			}
@@ -268,6 +313,12 @@ func checkC15(c *Case, s *Stats) error {
 		s.calls(4 * len(c.Vals))
 	default:
 		return fmt.Errorf("unknown C15 kind %q", c.Kind)
+	}
+	if err := batchLaw(items); err != nil {
+		return err
+	}
+	if len(items) >= 2 {
+		s.class("batch_of_encodings_checked")
 	}
 	s.class("codec=" + c.Kind)
 	if len(junk) > 0 {
